@@ -114,7 +114,7 @@ CHECKS = {
     "C04": {
         "level": "exploration",
         "manifest": {
-            "technique": "property-based testing against a reference map: rapid-generated rowid tables laid out by the independent builder with chosen cells per page (depth 1-7, slack separator keys, extreme rowids); the probe set of every table is enumerated completely (present rowids, both neighbours, separators, leaf first/last, 0, +-1, int64 min/max)",
+            "technique": "property-based testing against a reference map: rapid-generated rowid tables laid out by the independent builder with chosen cells per page (depth 1-7, slack separator keys, extreme rowids); the probe set of every table is enumerated completely (present rowids, both neighbours, separators, leaf first/last, 0, +-1, int64 min/max), each lookup repeated with a generated subset of the columns, incl. none (existence check)",
             "level_text": "Generated tables x complete probe enumeration, oracle = the rowid->row map the builder was given (SQLite confirms sampled images and every violation candidate). Covers Table.Rowid, DB.SelectRowid and PKSelect on INTEGER PRIMARY KEY tables. Sampled over tables, exhaustive over the stated probe classes per table.",
             "level_note": "Trusts the builder (validated against SQLite 3.40.1 integrity_check + SELECT on a sample and before any report).",
         },
@@ -219,13 +219,13 @@ CHECKS = {
             "level_note": "Bounded work is judged with a page-read budget derived from a dynamic-programming bound of an honest traversal; inputs on which the reader's recursion limit of 31 permits a large (but bounded) traversal (shared children, interior cycles: predicted > 2000 page visits) are excluded and counted. A 60 s watchdog only confirms hangs that repeat. Fatal process deaths are re-run and count only if they repeat.",
         },
         "rule": ("mutate: valid builder image (0-20 rows per tree, indexes, WITHOUT ROWID, overflow, page sizes 512/1024/4096) + 0-3 field mutations chosen by class (pointers / page header numbers / page type / varints) "
-                 "with hostile values (self, other pages, 0, out of range; 0, U+-1, 0xFFFF; 9-byte negative and huge varints, serial types 10/11), optional random byte flips, truncation at any per-mille, "
+                 "with hostile values (self, other pages, 0, out of range; 0, U+-1, 0xFFFF; 9-byte negative and huge varints, serial types 10/11), header numbers (in-header size with matching version-valid-for, freelist, change counter, page size, reserved bytes), the runaway combination (a leaf cell declaring 2^24..2^63 payload bytes on an overflow chain closed to a loop, with and without a header claiming billions of pages), optional random byte flips, truncation at any per-mille, "
                  "arbitrary or nearly valid journal files; schema: the builder's catalogue made to lie in 1-3 ways (other SQL text from a hostile list / the CREATE grammar / random runes, other root page, "
                  "other type/name/tbl_name, short/long/wrong-class rows) plus extra objects; driver: mutated files through database/sql; raw: header + random pages. Non-trivial = at least one mutation / lie. "
                  "Distinct = fingerprint of the case spec."),
         "assumptions": ["an honest reader visits a page at most once per path and follows an overflow chain over distinct pages only"],
         "min_nontrivial": {"quick": 3000, "thorough": 50000},
-        "required_classes": ["mut:cell.child", "mut:ovfl.next", "mut:cell.ovfl", "mut:page.cellptr", "mut:rec.serial", "mut:cell.paysize", "mut:truncated", "mut:journal", "schema:rows", "driver", "raw"],
+        "required_classes": ["mut:cell.child", "mut:ovfl.next", "mut:cell.ovfl", "mut:page.cellptr", "mut:rec.serial", "mut:cell.paysize", "mut:truncated", "mut:journal", "mut:runaway.chain+header-size", "mut:runaway.chain", "mut:hdr.28", "schema:rows", "driver", "raw"],
         "timeout": {"quick": 400, "thorough": 2400},
         "jobs": [
             job("mutate", "c05", ["TestC05Mutate"], 2500, 60000, 3, 10, pending=True),
